@@ -205,25 +205,24 @@ def handle5 (hd a b c d : String) : String :=
        let nlt := if nlt == "0" then some false else if nlt == "1" then some true else none
        handleText kind mode alg dl nlt old new so sn
      | _, _, _, _, _, _ => "bad-op")
+  | _ => "bad-op"
+
+def handle6 (hd a b c d e : String) : String :=
+  match words hd with
   | ["inline", mode, dl] =>
-    (match optNat dl, parseOps a, parseTokens b, parseTokens c with
-     | some dl, some [x], some old, some new =>
-       (match (d.splitOn "/").map (·.trimAscii.toString) with
-        | [so, sn] =>
-          (match parseSegLines so, parseSegLines sn with
-           | some so, some sn =>
-             (match inlineChanges (lnlOf mode) false old.toArray new.toArray x so sn { clock := dl } with
-              | .ok (cs, _) => "ok L=" ++ ";".intercalate (cs.map showInline)
-              | .error .fuel => "fuel"
-              | .error _ => "panic")
-           | _, _ => "bad-op")
-        | _ => "bad-op")
-     | _, _, _, _ => "bad-op")
+    (match optNat dl, parseOps a, parseTokens b, parseTokens c, parseSegLines d, parseSegLines e with
+     | some dl, some [x], some old, some new, some so, some sn =>
+       (match inlineChanges (lnlOf mode) false old.toArray new.toArray x so sn { clock := dl } with
+        | .ok (cs, _) => "ok L=" ++ ";".intercalate (cs.map showInline)
+        | .error .fuel => "fuel"
+        | .error _ => "panic")
+     | _, _, _, _, _, _ => "bad-op")
   | _ => "bad-op"
 
 def handle (line : String) : String :=
   let parts := (line.splitOn "|").map (·.trimAscii.toString)
   match parts with
+  | [hd, a, b, c, d, e] => handle6 hd a b c d e
   | [hd, a, b, c, d] => handle5 hd a b c d
   | [hd, so, sn, sr] =>
     (match words hd with
@@ -283,15 +282,15 @@ def handle (line : String) : String :=
      | _ => "bad-op")
   | [hd, body, seg] =>
     (match words hd with
-     | ["close", mode, n, cutoff] =>
-       (match n.toNat?, parseHexU32 cutoff, parseHex body, parseTokens seg with
+     | ["close", n, cutoff] =>
+       (match n.toNat?, parseHexU32 cutoff, parseHex body, (if seg == "" then some [] else (seg.splitOn ",").mapM parseHex) with
         | some n, some bits, some word, some cands =>
-          (match getCloseMatches (charsOf mode) word cands n (Float32.ofBits bits) with
-           | .ok r => "ok M=" ++ (if r.isEmpty then "-" else ",".intercalate (r.map fun b => if b.isEmpty then "_" else showHex b))
+          (match getCloseMatches (charsOf "str") word cands n (Float32.ofBits bits) with
+           | .ok r => "ok M=" ++ ",".intercalate (r.map showHex)
            | .error _ => "panic")
         | _, _, _, _ => "bad-op")
      | ["tok", kind, mode] =>
-       (match parseHex body, parseNats seg with
+       (match parseHex body, parseSegs seg with
         | some b, some lens => handleTok kind mode b (some lens)
         | _, _ => "bad-op")
      | _ => "bad-op")
